@@ -119,6 +119,37 @@ def o_compressed(src, codec, datas):
     return None
 
 
+def _rev8(b):
+    return int('{:08b}'.format(b)[::-1], 2)
+
+
+@C.oracle('swapped_member')
+def o_swapped_member(src, plain, obj, lo, hi):
+    """a bit-swapped member of variable size among other members: build emits the plain bytes with bits lo..hi reversed per byte,
+    and parse gives the value back (the wrapper consumes exactly the member)"""
+    c, pc = C.get(src), C.get(plain)
+    want = bytearray(pc.build(obj))
+    for i in range(lo, len(want) if hi is None else hi):
+        want[i] = _rev8(want[i])
+    got = res(lambda: c.build(obj))
+    if got != ('ok', bytes(want)):
+        return 'build gives %r, the plain encoding with the member bit-swapped is %r' % (got, bytes(want))
+    back = res(lambda: c.parse(bytes(want)))
+    if back[0] != 'ok' or not C.peq(back[1], pc.parse(pc.build(obj))):
+        return 'parse(build(%r)) gives %r' % (obj, back)
+    return None
+
+
+SWAPPED_MEMBERS = [
+    ('Struct("s"/BitsSwapped(PascalString(Byte, "ascii")), "t"/Int16ub)', 'Struct("s"/PascalString(Byte, "ascii"), "t"/Int16ub)', dict(s='hey', t=513), 0, 4),
+    ('Sequence(BitsSwapped(VarInt), GreedyBytes)', 'Sequence(VarInt, GreedyBytes)', [300, b'rest'], 0, 2),
+    ('Array(3, BitsSwapped(CString("ascii")))', 'Array(3, CString("ascii"))', ['a', 'bc', ''], 0, None),
+    ('Struct("h"/Byte, "a"/BitsSwapped(Prefixed(Byte, GreedyBytes)), "b"/Byte)', 'Struct("h"/Byte, "a"/Prefixed(Byte, GreedyBytes), "b"/Byte)', dict(h=1, a=b'xyz', b=9), 1, 5),
+    ('Struct("n"/Byte, "d"/BitsSwapped(Bytes(this.n)), "t"/Byte)', 'Struct("n"/Byte, "d"/Bytes(this.n), "t"/Byte)', dict(n=2, d=b'\x01\x80', t=3), 1, 3),
+    ('Struct("a"/ByteSwapped(Int24ub), "b"/BitsSwapped(Int16ub), "c"/Byte)', 'Struct("a"/Int24ul, "b"/BitsSwapped(Int16ub), "c"/Byte)', dict(a=0x010203, b=0x0180, c=7), 0, 0),
+]
+
+
 def run(tier, seed):
     acc = C.Acc('C15', tier, seed)
     rng = C.rng_for(seed, 'C15')
@@ -158,6 +189,13 @@ def run(tier, seed):
                 cases.append(dict(src='%s(Bytes(%d))' % (w, n), op='parse', data=v))
     acc.check('swapped', 'ByteSwapped(Struct("a"/Byte, "b"/Int16ub))', inner='Struct("a"/Byte, "b"/Int16ub)', mode='bytes', values=[dict(a=1, b=0x0203)])
     acc.check('swapped', 'BitsSwapped(GreedyBytes)', inner='GreedyBytes', mode='bits', values=[b'', b'\x01', b'\x80\x0f\xf0'])
+    for src, plain, obj, lo, hi in SWAPPED_MEMBERS:
+        acc.check('swapped_member', src, plain=plain, obj=obj, lo=lo, hi=hi)
+        cases.append(dict(src=src, op='build', obj=obj))
+        try:
+            cases.append(dict(src=src, op='parse', data=C.get(src).build(obj)))
+        except Exception:
+            pass
     cdatas = [b'', b'a', bytes(100), bytes(range(256)) * 2, G.rand_bytes(rng, 300)]
     for codec in CODECS:
         acc.check('compressed', 'Compressed(GreedyBytes, %r)' % codec, codec=codec, datas=cdatas)
@@ -166,7 +204,7 @@ def run(tier, seed):
     return acc.result(
         rule='ProcessXor with every integer key 0..255 and byte-string keys of length 1..80 (all-zero keys of length 1..80, keys with 63/64/70/79 '
              'leading zeros and a non-zero tail) x data lengths 0..100; ProcessRotateLeft amounts -64..64 (thorough; quick: -17..17 and selected) x '
-             'groups 1..8 x data of 0..3 groups and non-multiples; ByteSwapped/BitsSwapped over Bytes(n)/BytesInteger(n), n = 1..16; zlib/gzip/'
+             'groups 1..8 x data of 0..3 groups and non-multiples; ByteSwapped/BitsSwapped over Bytes(n)/BytesInteger(n), n = 1..16, and over variable-size members followed by other members; zlib/gzip/'
              'bzip2/lzma round trips. Oracle: independent Python definitions (cyclic XOR, big-integer rotation per group, slicing). distinct = (shape, outcome)',
         fragment='xor involution / shortcuts, byte and bit order involutions, rotl8 inverse for every amount are proved; the multi-byte rotation '
                  'branches are pinned by the exhaustive amount x group sweep against the big-integer definition',
